@@ -24,7 +24,7 @@
 (* This module has no variables: the walk is the total function Step over a   *)
 (* state record, so that ReplDiffMC can check it with TLC and ReplDiffTrace   *)
 (* can run it on inputs recorded from the real code.                          *)
-EXTENDS Integers, Sequences, FiniteSets, TLC
+EXTENDS Integers, Sequences, FiniteSets, TLC, SequencesExt
 
 Rng(s) == {s[i] : i \in DOMAIN s}
 NonEmptyId(S) == {o \in S : o.id # 0}
@@ -57,10 +57,26 @@ SortById(s) == IF s = <<>> THEN <<>> ELSE InsertById(SortById(SubSeq(s, 1, Len(s
 \* sec  : everything stored in the secondary (ids # 0), including local-only objects
 \* inL  : what the secondary lists for the diff, in listing order (FetchLocal + legacy entries)
 \* inR  : what the primary returned, in arrival order
+\* last : the lastRemoteIndex the DIFF is called with
+\* The remaining fields belong to the round around the diff (RoundInit below): glast = the lastRemoteIndex the round
+\* was started with, ridx = the index the primary answered with, fault = fault of the fetch-updated step.
+NoFault == [t |-> "none", id |-> 0, oc |-> 0, mod |-> FALSE]
 InitState(kind, sec, inL, inR, last) ==
   [kind |-> kind, last |-> last, sec |-> sec, inL |-> inL, inR |-> inR,
    local |-> <<>>, remote |-> <<>>, li |-> 1, ri |-> 1,
-   dels |-> <<>>, ups |-> <<>>, lskip |-> 0, rskip |-> 0, pc |-> "sort"]
+   dels |-> <<>>, ups |-> <<>>, lskip |-> 0, rskip |-> 0, pc |-> "sort",
+   glast |-> last, ridx |-> last, fault |-> NoFault]
+
+\* replicateACLType / replicateConfig / IndexReplicator.Replicate: "If the remote index ever goes backwards, it's a
+\* good indication that the remote side was rebuilt and we should do a full sync": the diff then runs with 0.
+EffLast(glast, ridx) == IF ridx < glast THEN 0 ELSE glast
+
+\* fault = [t, id, oc, mod]: the batch read that fetches the bodies of the upserts (FetchUpdated: ACL.PolicyBatchRead,
+\* ACL.TokenBatchRead, both AllowStale) is answered by a lagging server of the primary that
+\*   t = "stale": still holds an OLDER version (content oc, lower modify index) of the listed object id,
+\*   t = "omit" : does not hold object id at all (mod: the listed object was modified after its creation).
+RoundInit(kind, sec, inL, inR, glast, ridx, fault) ==
+  [InitState(kind, sec, inL, inR, EffLast(glast, ridx)) EXCEPT !.glast = glast, !.ridx = ridx, !.fault = fault]
 
 \* one iteration of the main loop  `for localIdx < lenLocal && remoteIdx < lenRemote`
 MergeStep(s) ==
@@ -138,8 +154,18 @@ ApplyUpsertsFirst(kind, sec, D, U, R) ==
       rejected == \E b \in batch : \E o \in rest \cup batch : KeyClash(kind, b, o)
   IN [ok |-> ~rejected, st |-> IF rejected THEN sec ELSE ApplyDiff(sec, D, U, R)]
 
-Post(s) == ApplyRound(s.kind, s.sec, Rng(s.dels), Rng(s.ups), Rng(s.inR)).st
 RoundAccepted(s) == ApplyRound(s.kind, s.sec, Rng(s.dels), Rng(s.ups), Rng(s.inR)).ok
+
+\* The outcome of a finished round: [err, post, idx]. idx is the index the round hands back ("we've synced up with
+\* the remote state as of that index"); the caller keeps its old lastRemoteIndex when err.
+\* A fetch fault matters only if the faulted object is one of the upserts. The property-conforming outcome of such a
+\* round (what ensureRemoteConsistent exists for): error, nothing applied, no index.
+FaultHits(s) == s.fault.t # "none" /\ s.fault.id \in Rng(s.ups)
+Result(s) ==
+  LET a == ApplyRound(s.kind, s.sec, Rng(s.dels), Rng(s.ups), Rng(s.inR)) IN
+  IF FaultHits(s) THEN [err |-> TRUE, post |-> s.sec, idx |-> 0]
+  ELSE [err |-> ~a.ok, post |-> a.st, idx |-> IF a.ok THEN s.ridx ELSE 0]
+Post(s) == Result(s).post
 
 (* ---- environment assumptions ---------------------------------------------- *)
 Listed(s) == Rng(s.inL)
@@ -158,7 +184,13 @@ UniqueIds(S) == \A a, b \in NonEmptyId(S) : a.id = b.id => a = b
 
 \* what the caller of the diff guarantees
 EnvInput(s) ==
+  \* (s.last is the effective index: nothing is assumed when the primary's index went backwards)
   /\ Consistent(Listed(s), Remote(s), s.last)
+  /\ s.last = EffLast(s.glast, s.ridx)
+  /\ \A r \in NonEmptyId(Remote(s)) : r.mi <= s.ridx \/ s.ridx >= s.glast      \* the primary's index covers what it lists
+  /\ (s.fault.t # "none" =>
+        /\ s.kind = "acl" /\ s.fault.id # 0
+        /\ \E r \in Remote(s) : r.id = s.fault.id /\ r.c # s.fault.oc)
   /\ UniqueIds(Listed(s)) /\ UniqueIds(Remote(s)) /\ UniqueIds(s.sec)
   \* names are unique within a datacenter
   /\ UniqueKeys(s.kind, {o \in s.sec : ~o.lo}) /\ UniqueKeys(s.kind, Remote(s))
@@ -210,8 +242,26 @@ WalkUpserts(s) ==
       /\ (SkipsEmptyIds(s.kind) => q.id # 0)
       /\ \A l \in Listed(s) : l.id = q.id => (q.mi > s.last /\ ~SameHash(s.kind, l, q))}}
 
-\* everything the round promises, evaluated on a finished walk
-RoundOK(s) ==
+\* The index a round hands back is honest: everything the primary listed with a modify index up to it has the
+\* primary's content in the secondary - exactly the Consistent assumption of the NEXT round.
+IndexHonest(post, R, err, idx) == ~err => Consistent({o \in post : ~o.lo}, R, idx)
+
+\* Whatever a round writes is the primary's CURRENT version: every replicated object afterwards has the content it
+\* had before or the listed one (never the older body of a lagging server).
+NoStaleBody(sec, post, R) == Proj({o \in post : ~o.lo /\ o.id # 0}) \subseteq Proj(sec) \cup Proj(R)
+
+\* the following fault-free round, started the way Replicator.Run starts it
+NextLast(s) == IF Result(s).err THEN s.glast ELSE Result(s).idx
+NextRound(s) ==
+  LET p == Result(s).post
+      legacy == SelectSeq(s.inL, LAMBDA o : o.id = 0)
+  IN Run(RoundInit(s.kind, p, legacy \o SetToSeq({o \in p : ~o.lo}), s.inR, NextLast(s), s.ridx, NoFault))
+NextRoundConverges(s) ==
+  LET r2 == Result(NextRound(s)) IN
+  ~r2.err /\ Converged(r2.post, Remote(s)) /\ {o \in r2.post : o.lo} = {o \in s.sec : o.lo}
+
+\* ... of a round whose fetch step was not hit by a fault
+RoundOKNoFault(s) ==
   LET D == Rng(s.dels)  U == Rng(s.ups)  p == Post(s) IN
   /\ RoundAccepted(s)                      \* deletions first: no upsert meets a key that is about to be freed
   /\ Converged(p, Remote(s))
@@ -222,4 +272,13 @@ RoundOK(s) ==
   /\ Len(s.dels) = Cardinality(D) /\ Len(s.ups) = Cardinality(U)          \* nothing written twice
   /\ s.lskip = Cardinality({i \in DOMAIN s.inL : s.inL[i].id = 0 /\ SkipsEmptyIds(s.kind)})
   /\ s.rskip = Cardinality({i \in DOMAIN s.inR : s.inR[i].id = 0 /\ SkipsEmptyIds(s.kind)})
+
+\* everything the round promises, evaluated on a finished walk
+RoundOK(s) ==
+  LET D == Rng(s.dels)  U == Rng(s.ups)  p == Post(s)  r == Result(s) IN
+  /\ IndexHonest(r.post, Remote(s), r.err, r.idx)
+  /\ NoStaleBody(s.sec, r.post, Remote(s))
+  /\ ((s.fault.t # "none" \/ s.ridx < s.glast) => NextRoundConverges(s))
+  /\ (FaultHits(s) => r.err /\ r.post = s.sec /\ r.idx = 0)
+  /\ FaultHits(s) \/ RoundOKNoFault(s)
 =============================================================================
